@@ -32,11 +32,19 @@ func verifPieces() []verifPiece {
 	}
 }
 
+// verifVal renders the value of every attribute (the structure oracle looks at names only): "1" by
+// default, replaced by multi-line renderings in the layout loop at the end of the test.
+var verifVal = func(nl string, inOneLineBlock bool) string { return "1" }
+
+// (a heredoc's closing marker must be followed by a newline: spec.md "terminated by a newline
+// sequence" - renderings without the final newline are then not grammatical)
+var verifHeredocVals = false
+
 func verifRender(items []verifItem, indent string, oneLine bool, nl string) string {
 	var b strings.Builder
 	for _, it := range items {
 		if it.attr != "" {
-			b.WriteString(indent + it.attr + " = 1" + nl)
+			b.WriteString(indent + it.attr + " = " + verifVal(nl, false) + nl)
 			continue
 		}
 		b.WriteString(indent + it.typ)
@@ -46,7 +54,7 @@ func verifRender(items []verifItem, indent string, oneLine bool, nl string) stri
 		if oneLine && len(it.body) <= 1 && (len(it.body) == 0 || it.body[0].attr != "") {
 			b.WriteString(" {")
 			if len(it.body) == 1 {
-				b.WriteString(" " + it.body[0].attr + " = 1 ")
+				b.WriteString(" " + it.body[0].attr + " = " + verifVal(nl, true) + " ")
 			}
 			b.WriteString("}" + nl)
 			continue
@@ -141,6 +149,9 @@ func TestVerifReplayStructure(t *testing.T) {
 				for _, final := range []bool{true, false} {
 					s := src
 					if !final {
+						if verifHeredocVals {
+							continue
+						}
 						s = strings.TrimSuffix(s, nl)
 					}
 					n++
@@ -191,5 +202,34 @@ func TestVerifReplayStructure(t *testing.T) {
 		deep = []verifItem{{typ: "lvl", labels: []string{fmt.Sprintf("d%d", i)}, body: deep}}
 	}
 	check(append(deep, many[:3]...))
-	fmt.Printf("STANDIN inputs=%d bound=\"%d configurations: every quoted label made of one or two literal pieces from a 15-piece alphabet covering every escape sequence, in multi-line and one-line blocks, LF and CRLF, with and without final newline; 5 nesting/order shapes, 300 sibling one-line blocks, 60 levels of nesting\"\n", n, n)
+	// values that span several lines: brackets (also inside one-line blocks, where the closing brace
+	// then sits on a later line than the argument name) and both heredoc forms, under LF and CRLF
+	for _, mk := range []func(nl string, one bool) string{
+		func(nl string, one bool) string { return "[" + nl + "  80," + nl + "]" },
+		func(nl string, one bool) string { return "(" + nl + "1" + nl + ")" },
+		func(nl string, one bool) string { return "f(" + nl + "1," + nl + ")" },
+		func(nl string, one bool) string { return "{" + nl + "k = 1" + nl + "}" },
+		func(nl string, one bool) string {
+			if one {
+				return "1 /* c" + nl + " */"
+			}
+			return "<<EOT" + nl + "x ${y}" + nl + "EOT"
+		},
+		func(nl string, one bool) string {
+			if one {
+				return "1"
+			}
+			return "<<-EOT" + nl + "    x" + nl + "  EOT"
+		},
+	} {
+		verifVal = mk
+		verifHeredocVals = strings.HasPrefix(mk("\n", false), "<<")
+		for _, sh := range shapes[:4] {
+			check(sh)
+		}
+		check([]verifItem{{typ: "svc", labels: []string{`"x"`}, body: []verifItem{{attr: "ports"}}}, {attr: "after"}})
+	}
+	verifVal = func(nl string, one bool) string { return "1" }
+	verifHeredocVals = false
+	fmt.Printf("STANDIN inputs=%d bound=\"%d configurations: every quoted label made of one or two literal pieces from a 15-piece alphabet covering every escape sequence, in multi-line and one-line blocks, LF and CRLF, with and without final newline; 5 nesting/order shapes, 300 sibling one-line blocks, 60 levels of nesting; 6 multi-line attribute values (brackets, comments, both heredoc forms) in every shape\"\n", n, n)
 }
